@@ -1,6 +1,8 @@
 package tsservergen
 
 import (
+	"fmt"
+
 	"google.golang.org/protobuf/compiler/protogen"
 
 	"github.com/SebastienMelki/sebuf/internal/annotations"
@@ -13,4 +15,12 @@ func VerifRoute(svc *protogen.Service, m *protogen.Method) (verb, path string, p
 		return "", "", nil, nil, false, err
 	}
 	return c.httpMethod, c.fullPath, c.pathParams, c.queryParams, c.hasBody, nil
+}
+
+// VerifRouteLines returns the TypeScript lines emitted for one route entry.
+func VerifRouteLines(svc *protogen.Service, m *protogen.Method) ([]string, error) {
+	var lines []string
+	p := func(format string, args ...interface{}) { lines = append(lines, fmt.Sprintf(format, args...)) }
+	err := (&Generator{}).generateRouteEntry(p, svc, m)
+	return lines, err
 }
